@@ -21,8 +21,9 @@
 //	pos     position in the slot schedule selected by the candidate's timestamp; the proposer is
 //	        the validator at that position of the set the code should compute for the block
 //	        (tdpos: term = the term selected by the timestamp)
-//	view    the view number declared in the justify certificate (honest: h-1); the certificate
-//	        always certifies the id of block h-1.  `noqc`: storage without justify
+//	view    <v> or <v>@<cert>: the view number declared in the justify certificate (honest: h-1) and the
+//	        height of the ledger block whose id it certifies (default and honest: the predecessor h-1;
+//	        h-3 <= cert <= h-1).  `noqc`: storage without justify
 //	entry   <addr><kind> as in the safety engine: v valid signature by <addr> over the certified id,
 //	        r the same re-signed, w signature over another id, c corrupted, m key/address mismatch
 package main
@@ -527,7 +528,7 @@ type cand struct {
 	h, ownBits, preB int64
 	term, pos        int64
 	noqc             bool
-	view             int64
+	view, cert       int64 // declared view; height of the certified ledger block (the TRUE view of the certificate)
 	es               []entry
 }
 
@@ -579,7 +580,15 @@ func parse(line string) (*cand, bool) {
 			return nil, false
 		}
 	} else {
-		c.view = get(rest[0])
+		vt := strings.SplitN(rest[0], "@", 2)
+		c.view = get(vt[0])
+		c.cert = c.h - 1
+		if len(vt) == 2 {
+			c.cert = get(vt[1])
+		}
+		if c.cert > c.h-1 || c.cert+3 < c.h {
+			return nil, false
+		}
 		for _, t := range rest[1:] {
 			e, k := parseEntry(t)
 			ok = ok && k
@@ -614,11 +623,18 @@ func (c *cand) ownSet() ([]int, bool) {
 	return tdInForce(c.start, c.init, c.hist, c.terms, c.h, c.term, c.ownBits)
 }
 
-func (c *cand) viewSet() ([]int, bool) {
-	if c.kind == "xp" {
-		return xpInForce(c.start, c.tip, c.init, c.hist, c.h-1, c.preB)
+func (c *cand) viewSet() ([]int, bool) { return c.setOfView(c.cert) }
+
+// setOfView: the set in force for the view of ledger block v (v <= h-1)
+func (c *cand) setOfView(v int64) ([]int, bool) {
+	bits := int64(0)
+	if v == c.h-1 {
+		bits = c.preB
 	}
-	return tdInForce(c.start, c.init, c.hist, c.terms, c.h-1, c.terms[c.h-1], c.preB)
+	if c.kind == "xp" {
+		return xpInForce(c.start, c.tip, c.init, c.hist, v, bits)
+	}
+	return tdInForce(c.start, c.init, c.hist, c.terms, v, c.terms[v], bits)
 }
 
 func contains(s []int, a int) bool {
@@ -668,13 +684,13 @@ func exec(line string, out *xvlib.Out) (res string) {
 		ts = tdTs(len(c.init), c.term, c.pos, tdBlockNum-1)
 	}
 	pre := in.l.chain[c.h-1]
-	certID := pre.id
 	candID := blockID(in.chainKey+"/cand", c.h)
 	var justify *bft.QuorumCert
 	if !c.noqc {
+		certID := in.l.chain[c.cert].id
 		vi := &bft.VoteInfo{ProposalId: certID, ProposalView: c.view}
-		if c.h >= 2 {
-			vi.ParentId, vi.ParentView = in.l.chain[c.h-2].id, c.view-1
+		if c.cert >= 1 {
+			vi.ParentId, vi.ParentView = in.l.chain[c.cert-1].id, c.view-1
 		}
 		justify = &bft.QuorumCert{VoteInfo: vi}
 		for _, e := range c.es {
@@ -802,12 +818,12 @@ func oracle(c *cand, line, res string, own []int, ownOK bool, col int, out *xvli
 		case bad > 0:
 			key = "invalid-signature-counted"
 		}
-		viol(key, fmt.Sprintf("%s CheckMinerMatch accepted block %d whose certificate (view %d) carries %d distinct valid members besides the collector of the set in force for view %d (%s); %d required (n=%d)",
-			c.kind, c.h, c.view, len(others), c.h-1, setStr(S), q, n))
+		viol(key, fmt.Sprintf("%s CheckMinerMatch accepted block %d whose certificate (for block %d, declared view %d) carries %d distinct valid members besides the collector of the set in force for view %d (%s); %d required (n=%d)",
+			c.kind, c.h, c.cert, c.view, len(others), c.cert, setStr(S), q, n))
 	}
-	if !accepted && allValid && !memberInvalid && len(others) >= q && c.view == c.h-1 {
+	if !accepted && allValid && !memberInvalid && len(others) >= q && c.view == c.h-1 && c.cert == c.h-1 {
 		viol("genuine-quorum-rejected", fmt.Sprintf("%s CheckMinerMatch rejected block %d of the entitled proposer although its certificate carries %d >= %d distinct valid members besides the collector of the set in force for view %d (%s)",
-			c.kind, c.h, len(others), q, c.h-1, setStr(S)))
+			c.kind, c.h, len(others), q, c.cert, setStr(S)))
 	}
 }
 
@@ -817,14 +833,22 @@ type namedSet struct {
 }
 
 func (c *cand) altSets(own []int) []namedSet {
-	r := []namedSet{{"block-view", own}, {"initial", c.init}}
+	var r []namedSet
+	if c.kind == "xp" && c.view != c.cert {
+		if s, ok := xpInForce(c.start, c.tip, c.init, c.hist, c.view, c.preB); ok {
+			r = append(r, namedSet{"declared-view", s})
+		}
+	}
+	if c.cert != c.h-1 {
+		if s, ok := c.setOfView(c.h - 1); ok {
+			r = append(r, namedSet{"predecessor-view", s})
+		}
+	}
+	r = append(r, namedSet{"block-view", own}, namedSet{"initial", c.init})
 	if s, ok := recordedAt(c.hist, c.tip); ok {
 		r = append(r, namedSet{"tip-state", s})
 	}
 	if c.kind == "xp" {
-		if s, ok := xpInForce(c.start, c.tip, c.init, c.hist, c.view, c.preB); ok {
-			r = append(r, namedSet{"declared-view", s})
-		}
 		if s, ok := xpInForce(c.start, c.tip, c.init, c.hist, c.h-1, 0); ok {
 			r = append(r, namedSet{"ignoring-rollback-marker", s})
 		}
@@ -944,6 +968,42 @@ func (g *gen) certificates(prefix string, view int64, S, O []int, col int) {
 	g.run("d:noqc", prefix+" noqc")
 }
 
+// mislabelled presents certificates that lie about their view or certify an ancestor instead of the predecessor.
+// setOf(v, declared) = the set the chain has in force for view v (declared: looked up the way the code does for a declared view).
+func (g *gen) mislabelled(prefix string, h, tip int64, col int, setOf func(v int64) ([]int, bool)) {
+	emit := func(class, view string, set []int) {
+		es := toks(take(g.shuffled(but(set, col)), quorum(len(set))), "v")
+		g.run(class, strings.TrimSpace(fmt.Sprintf("%s %s %s", prefix, view, strings.Join(es, " "))))
+	}
+	S, ok := setOf(h - 1)
+	if !ok {
+		return
+	}
+	for _, v := range []int64{1, h, h + 1, h + 2, h - 2} {
+		if v < 0 || v == h-1 {
+			continue
+		}
+		if sv, ok := setOf(v); ok {
+			emit("e:view-lie", strconv.FormatInt(v, 10), sv) // a quorum of the set of the declared view
+			if g.rng.Chance(1, 3) {
+				emit("e:view-lie-true-set", strconv.FormatInt(v, 10), S) // a genuine quorum under a wrong view number
+			}
+		}
+	}
+	for _, cert := range []int64{h - 2, h - 3} {
+		if cert < 0 {
+			continue
+		}
+		sc, ok := setOf(cert)
+		if !ok {
+			continue
+		}
+		emit("e:ancestor-as-predecessor", fmt.Sprintf("%d@%d", h-1, cert), S) // an ancestor's id under the predecessor's view
+		emit("e:ancestor-pre-set", fmt.Sprintf("%d@%d", cert, cert), S)       // an ancestor certified by the predecessor's set
+		emit("e:ancestor-own-set", fmt.Sprintf("%d@%d", cert, cert), sc)      // a genuine certificate of an ancestor
+	}
+}
+
 // variants of the new validator set relative to the initial one 0..n-1
 func variants(n int) map[string][]int {
 	seq := func(a, k int) []int {
@@ -1007,6 +1067,15 @@ func (g *gen) xpoaAround(start int64, init []int, hist []edit, tips []int64, bit
 			}
 			prefix := fmt.Sprintf("xp %d %s %s %d %d %d %d %d", start, setStr(init), histStr(hist), tip, h, ownBits, preBits, pos)
 			g.certificates(prefix, h-1, S, O, own[pos])
+			if h > start {
+				g.mislabelled(prefix, h, tip, own[pos], func(v int64) ([]int, bool) {
+					b := int64(0)
+					if v == h-1 || v > h-1 {
+						b = preBits
+					}
+					return xpInForce(start, tip, init, hist, v, b)
+				})
+			}
 		}
 	}
 }
@@ -1078,6 +1147,14 @@ func (g *gen) tdposAround(start int64, init []int, hist []edit, changes []int64,
 			}
 			prefix := fmt.Sprintf("td %d %s %s %s %d 0 0 %d %d", start, setStr(init), histStr(hist), termsStr(terms), h, term, pos)
 			g.certificates(prefix, h-1, S, O, own[pos])
+			if h > start {
+				g.mislabelled(prefix, h, tip, own[pos], func(v int64) ([]int, bool) {
+					if v > h-1 {
+						return nil, false
+					}
+					return tdInForce(start, init, hist, terms, v, terms[v], 0)
+				})
+			}
 		}
 	}
 }
